@@ -18,7 +18,7 @@ man = {
     "setup_cmd": "cd /verif && ./check --build-all",
     "hooks": {
         "guard": "verif",
-        "enable": "go test -tags verif (checks are test binaries of module /verif/sim with replace => /repo; every binary is built with a generated -overlay that changes three things in the Go runtime of the test binaries only (no wall-clock time slice, no periodic look at the global run queue, one fixed-seed state for the runtime's own random generators; see DESIGN.md 3.2 and 10.5) and, for C03, C05, C08-C11 and C13-C20 (the list per check is the overlay entry in checks.json), rewrites import paths of os / sync / sync/atomic / net in storage, state, frame, peering, m, router, switchr, api/dns to the shims under /verif/sim (simos, simsync, simatomic, simsyncd, simtcp); /repo's files are never changed by it)",
+        "enable": "go test -tags verif (checks are test binaries of module /verif/sim with replace => /repo; every binary is built with a generated -overlay that changes four things in the Go runtime of the test binaries only (no wall-clock time slice, no periodic look at the global run queue, one fixed-seed state for the runtime's own random generators that is put back to its start value before every execution of a run, a stream of its own for the order of timers due at one fake instant; see DESIGN.md 3.2 and 10.5) and, for C03, C05, C08-C11 and C13-C20 (the list per check is the overlay entry in checks.json), rewrites import paths of os / sync / sync/atomic / net in storage, state, frame, peering, m, router, switchr, api/dns to the shims under /verif/sim (simos, simsync, simatomic, simsyncd, simtcp); /repo's files are never changed by it)",
         "baseline_off_cmd": "cd /repo && go test -mod=mod -json -vet=off -count=1 -timeout 25m ./...",
         "source_commits": hook_commits,
         "add_only": True,
